@@ -16,6 +16,7 @@ import (
 
 	spec "go.miragespace.co/specter/spec/chord"
 	"specterverif/hcommon"
+	"specterverif/simnet"
 	"specterverif/simrt"
 )
 
@@ -58,6 +59,9 @@ type Exec struct {
 	states map[uint64]struct{}
 	quiesced bool
 	rpcErrs []string
+	trigWG  *sync.WaitGroup
+	quietPhase bool
+	trigActive int
 	root    string // root-cause class shared by every consequence seen in this run
 }
 
@@ -102,12 +106,39 @@ func Run(t *testing.T, prop string, seed uint64, tier string, replay *hcommon.Re
 	}
 	skipFinger := uint64(p.Sched.SkipFinger * (1 << 32))
 	skipOther := uint64(p.Sched.SkipOther * (1 << 32))
+	stallP := uint64(p.Sched.StallProb * (1 << 32))
+	stallsLeft := p.Sched.StallBudget
+	stallFn := func(site string, draw func() uint64) time.Duration {
+		if strings.HasPrefix(site, "h:") || strings.HasPrefix(site, "chord/local.go:") || strings.HasPrefix(site, "simnet:") {
+			return 0
+		}
+		if vm := p.Sched.VictimMod; vm > 0 && strings.HasPrefix(site, "chord/") && simrt.Mix(p.Sched.VictimSalt, simrt.HashString(site))%vm == 0 {
+			if draw()&1 == 0 {
+				return time.Duration(draw() % uint64(p.Sched.StallMax+1))
+			}
+			return 0
+		}
+		if stallP == 0 || draw()&0xffffffff >= stallP {
+			return 0
+		}
+		return time.Duration(draw() % uint64(p.Sched.StallMax+1))
+	}
 	cfg := simrt.Config{
 		Chooser:  chooser,
 		EnvSeed:  envSeed,
 		MaxSteps: 3_000_000,
 		MaxDepth: 1500,
 		TraceCap: traceCap(),
+		Stall: func(site string, draw func() uint64) time.Duration {
+			if stallsLeft <= 0 || ex.quietPhase {
+				return 0
+			}
+			d := stallFn(site, draw)
+			if d > 0 {
+				stallsLeft--
+			}
+			return d
+		},
 		SkipYield: func(site string, draw func() uint64) bool {
 			// hot, almost never contended lock sites: finger table entries
 			if strings.HasPrefix(site, "chord/local.go:") {
@@ -199,6 +230,23 @@ func (ex *Exec) main() {
 		c.Net.AddTargeted(f)
 	}
 	var wg sync.WaitGroup
+	ex.trigWG = &wg
+	seenRPC := map[string]int{}
+	planned := len(p.Nodes)
+	_ = planned
+	c.OnReply = func(call simnet.Call) {
+		if ex.quietPhase {
+			return
+		}
+		seenRPC[call.Method]++
+		for ti := range p.Triggers {
+			tr := p.Triggers[ti]
+			if tr.OnMethod == call.Method && tr.Nth == seenRPC[call.Method] {
+				ex.trigActive++
+				simrt.GoGroup(fmt.Sprintf("h:trigger%d", ti), "", func() { defer func() { ex.trigActive-- }(); ex.fire(tr, call) })
+			}
+		}
+	}
 	for i := range p.Nodes {
 		wg.Add(1)
 		simrt.GoGroup(fmt.Sprintf("h:slot%d", i), "", func() { defer wg.Done(); ex.slotTask(i) })
@@ -212,7 +260,11 @@ func (ex *Exec) main() {
 		simrt.GoGroup(fmt.Sprintf("h:lookup%d", li), "", func() { defer wg.Done(); ex.lookupTask(li) })
 	}
 	wg.Wait()
+	ex.quietPhase = true
 	simrt.YieldAlways("h:main-joined")
+	for ex.trigActive > 0 {
+		simrt.Sleep(50*time.Millisecond, "h:wait-triggers")
+	}
 	c.Net.Quiet()
 	simrt.Event("all plan tasks returned; quiescing")
 	ex.quiesced = ex.quiesce()
@@ -268,45 +320,9 @@ func (ex *Exec) slotTask(i int) {
 				simrt.Event("join n%d skipped: no usable node", i)
 				continue
 			}
-			remote, err := c.Remote(h, via)
-			if err != nil {
-				continue
-			}
-			simrt.Event("join n%d id=%d via %s ...", i, h.ID, via.Name)
-			simrt.SetGroup(h.Name)
-			err = h.Node.Join(remote)
-			simrt.SetGroup("")
-			h.JoinErr = err
-			h.Joined = err == nil
-			simrt.Event("join n%d id=%d via %s -> %v", i, h.ID, via.Name, err)
-			ex.mu.Lock()
-			ex.joins = append(ex.joins, fmt.Sprintf("n%d:%v", i, err))
-			ex.mu.Unlock()
-			ex.checkJoinResult(h, via, err)
-			ex.noteState()
+			ex.join(h, via)
 		case "leave":
-			h := c.Slots[i]
-			if h == nil || !h.Joined || h.Left || h.Crashed || h.Leaving {
-				continue
-			}
-			if ex.remaining(h) < 1 {
-				simrt.Event("leave n%d skipped: last node", i)
-				continue
-			}
-			h.Leaving = true
-			h.LeaveStart = simrt.Elapsed()
-			simrt.Event("leave n%d id=%d ...", i, h.ID)
-			simrt.SetGroup(h.Name)
-			h.Node.Leave()
-			simrt.SetGroup("")
-			if h.Node.VerifState() == spec.Left {
-				h.Left = true
-			} else {
-				h.Leaving = false
-				simrt.Probe("leave-gave-up")
-			}
-			simrt.Event("leave n%d id=%d -> state %s", i, h.ID, h.Node.VerifState())
-			ex.noteState()
+			ex.leave(c.Slots[i], "plan")
 		case "crash":
 			h := c.Slots[i]
 			if h == nil || !h.Joined || h.Left || h.Crashed {
@@ -502,4 +518,124 @@ func traceCap() int {
 		}
 	}
 	return 600
+}
+
+// neighbour returns the ring predecessor (dir=-1) or successor (dir=+1) of h
+// among the nodes that are currently part of the ring.
+func (ex *Exec) neighbour(h *NodeH, dir int) *NodeH {
+	var ms []*NodeH
+	for _, x := range ex.c.Slots {
+		if x != nil && x.Joined && !x.Left && !x.Crashed {
+			ms = append(ms, x)
+		}
+	}
+	sort.Slice(ms, func(i, j int) bool { return ms[i].ID < ms[j].ID })
+	for i, x := range ms {
+		if x == h {
+			return ms[(i+dir+len(ms))%len(ms)]
+		}
+	}
+	if len(ms) == 0 {
+		return nil
+	}
+	// h is not (yet) a member: neighbour by id
+	o := ownerOf(ms, h.ID)
+	if dir > 0 {
+		return o
+	}
+	for i, x := range ms {
+		if x == o {
+			return ms[(i-1+len(ms))%len(ms)]
+		}
+	}
+	return nil
+}
+
+func (ex *Exec) fire(tr Trigger, call simnet.Call) {
+	simrt.Sleep(tr.Delay, "h:trigger-delay")
+	caller, callee := ex.c.ByName(call.From), ex.c.ByName(call.To)
+	var target *NodeH
+	switch tr.Target {
+	case "caller":
+		target = caller
+	case "callee":
+		target = callee
+	case "pred-of-caller":
+		if caller != nil {
+			target = ex.neighbour(caller, -1)
+		}
+	case "succ-of-caller":
+		if caller != nil {
+			target = ex.neighbour(caller, +1)
+		}
+	case "pred-of-callee":
+		if callee != nil {
+			target = ex.neighbour(callee, -1)
+		}
+	case "succ-of-callee":
+		if callee != nil {
+			target = ex.neighbour(callee, +1)
+		}
+	}
+	if target == nil {
+		return
+	}
+	switch tr.Kind {
+	case "leave":
+		simrt.Probe("trigger-leave")
+		ex.leave(target, "trigger")
+	case "join-before":
+		if !target.Joined || target.Left || target.Leaving || target.Crashed {
+			return
+		}
+		id := (target.ID + ringSize - tr.Spare) % ringSize
+		for _, h := range ex.c.All {
+			if h.ID == id {
+				return
+			}
+		}
+		simrt.Probe("trigger-join")
+		h := ex.c.StartSpare(id)
+		ex.join(h, target)
+	}
+}
+
+func (ex *Exec) join(h, via *NodeH) {
+	remote, err := ex.c.Remote(h, via)
+	if err != nil {
+		return
+	}
+	simrt.Event("join %s id=%d via %s ...", h.Name, h.ID, via.Name)
+	simrt.SetGroup(h.Name)
+	err = h.Node.Join(remote)
+	simrt.SetGroup("")
+	h.JoinErr = err
+	h.Joined = err == nil
+	simrt.Event("join %s id=%d via %s -> %v", h.Name, h.ID, via.Name, err)
+	ex.checkJoinResult(h, via, err)
+	ex.noteState()
+}
+
+func (ex *Exec) leave(h *NodeH, why string) {
+	if h == nil || !h.Joined || h.Left || h.Crashed || h.Leaving {
+		return
+	}
+	if ex.remaining(h) < 1 {
+		simrt.Event("leave %s skipped: last node", h.Name)
+		return
+	}
+	h.Leaving = true
+	h.LeaveStart = simrt.Elapsed()
+	simrt.Event("leave %s id=%d (%s) ...", h.Name, h.ID, why)
+	simrt.SetGroup(h.Name)
+	h.Node.Leave()
+	simrt.SetGroup("")
+	if h.Node.VerifState() == spec.Left {
+		h.Left = true
+	} else {
+		h.Leaving = false
+		simrt.Probe("leave-gave-up")
+	}
+	simrt.Event("leave %s id=%d -> state %s", h.Name, h.ID, h.Node.VerifState())
+	ex.noteState()
 }
